@@ -522,6 +522,27 @@ class Program:
         self._auto_inline = out
         return out
 
+    def roots_of(self, name):
+        """Non-helper functions that reach `name` through chains of refactoring helpers (the function itself
+        when it is not such a helper)."""
+        ai = self.auto_inline()
+        if name not in ai:
+            b = self.bodies.get(name)
+            if b is not None and b.kind == "closure":
+                return self.roots_of(b.j.get("root", name))
+            return [name]
+        sites = set()
+        for b in self.bodies.values():
+            for bi, t, c in b.calls():
+                if c.target == name:
+                    sites.add(b.name)
+        out = []
+        for s in sorted(sites):
+            for r in self.roots_of(s):
+                if r not in out:
+                    out.append(r)
+        return out or [name]
+
     def home(self, name):
         """The function a body belongs to for who-may-call purposes: closures -> their root function; helpers
         introduced by refactoring -> their single caller."""
